@@ -442,10 +442,12 @@ class DemoStorage(ConflictResolvingStorage):
             if (transaction is not self._transaction):
                 raise ZODB.POSException.StorageTransactionError(
                     "tpc_finish called with wrong transaction")
+            # If this fails (func is called before anything is committed),
+            # the transaction is still in progress and tpc_abort ends it.
+            tid = self.changes.tpc_finish(transaction, func)
             self._issued_oids.difference_update(self._stored_oids)
             self._stored_oids = set()
             self._transaction = None
-            tid = self.changes.tpc_finish(transaction, func)
             self._commit_lock.release()
         return tid
 
